@@ -18,6 +18,8 @@ def analyse(ctx: CheckContext, p: Program):
                                         "OpenPinch.analysis.indirect_integration_entry", "OpenPinch.analysis.direct_integration_entry")))
     ctx.guard(bk.check_assignment_booking, ctx, p, r)
     ctx.guard(inval.check_between_pinches, ctx, p, r)
+    _eng = inval.InvalEngine(p, r)
+    ctx.guard(inval.check_count_guard, ctx, _eng, [f for f in p.all_funcs if f.module.name == "OpenPinch.analysis.gcc_manipulation"])
     ctx.guard(bk.check_zone_sum, ctx, p, r)
     ctx.guard(bk.check_default_filter, ctx, p, r)
     ctx.guard(bk.check_zero_seeded_utilities, ctx, p, r)
